@@ -48,8 +48,7 @@ def gen_plan(rng, index, tier):
         bp.update({"geom": "cartesian", "symmetry": rng.choice(["full", "quarter reflective through center assembly"])})
     cfg = {"reactor": "gen", "blueprint": bp, "settings": {"nCycles": 1, "burnSteps": 1}, "actors": [], "ngeneric": rng.randint(4, 9), "rejected": rng.random() < 0.15}
     steps = []
-    # (tracking into the grid-less default pool of a blueprint without a pool system is a recorded C14 finding)
-    cfg["settings"]["trackAssems"] = bool(bp.get("sfp")) and rng.random() < 0.7
+    cfg["settings"]["trackAssems"] = rng.random() < 0.7  # (without a pool system in the blueprint: the default pool)
     kinds = ["c_remove", "g_add", "g_add", "g_insert", "g_remove", "g_removeAll", "g_setChildren", "a_remove", "a_add", "a_insert", "a_reorder", "a_sort", "a_removeAll", "a_setChildren", "b_remove", "b_add", "b_replace", "copy", "pickle", "detach_copy"]
     if cfg["rejected"]:
         kinds += ["x_remove_nonchild", "x_add_present"]
